@@ -9,7 +9,7 @@
      what it answers, hence not on the order in which the tools of a round finish;
    * the witness for the behaviour before fix a2b0142 (return-directly call found by its id). *)
 From Coq Require Import Permutation.
-From Eino Require Import Base.Util Model.Tools Model.React Proofs.Tools Proofs.ToolsMore Proofs.React.
+From Eino Require Import Base.Util Model.Tools Model.React Proofs.Tools Proofs.ToolsMore Proofs.React Proofs.ReactExt.
 Local Open Scope string_scope.
 
 Lemma all_some_map_Some : forall A (l : list A), all_some (map Some l) = Some l.
@@ -144,7 +144,165 @@ Section Bridge.
     repeat split; auto.
     unfold node_tns, tools_stream_frames. rewrite Ho. simpl. rewrite Hnone. reflexivity.
   Qed.
+
+  (* ---- ... and when a tool fails as it is called (or is unknown) the two forms fail alike ---- *)
+  (* a call's tool behaves alike in its two forms: both answer (the stream, of at least one chunk
+     and without error item, concatenating to the invoked answer), or both fail with the same
+     error / both panic as they are called, or the call names no tool (and there is no handler) *)
+  Definition call_consistent (c : call) : Prop :=
+    match answer kind_of inv str handler c, s_answer kind_of inv str handler c with
+    | Ok (Tools.TOk o), Ok (SOk cs None) => cs <> [] /\ o = concat_strings cs
+    | Ok (Tools.TErr e), Ok (SErr e') => e = e'
+    | Ok Tools.TPanic, Ok SPanic => True
+    | Err _, Err _ => True
+    | _, _ => False
+    end.
+
+  Definition call_ok (c : call) : Prop :=
+    exists cs, s_answer kind_of inv str handler c = Ok (SOk cs None) /\ cs <> []
+               /\ answer kind_of inv str handler c = Ok (Tools.TOk (concat_strings cs)).
+
+  Lemma consistent_cases : forall c, call_consistent c ->
+    call_ok c
+    \/ (exists e, answer kind_of inv str handler c = Ok (Tools.TErr e) /\ s_answer kind_of inv str handler c = Ok (SErr e))
+    \/ (answer kind_of inv str handler c = Ok Tools.TPanic /\ s_answer kind_of inv str handler c = Ok SPanic)
+    \/ (exists e e', answer kind_of inv str handler c = Err e /\ s_answer kind_of inv str handler c = Err e').
+  Proof.
+    intros c H. unfold call_consistent in H.
+    destruct (answer kind_of inv str handler c) as [[o|e|]|e|] eqn:Ea;
+      destruct (s_answer kind_of inv str handler c) as [[cs [tl|]|e'|]|e'|] eqn:Es; try contradiction.
+    - left. destruct H as [H1 H2]. exists cs. subst o. auto.
+    - right. left. exists e. subst. auto.
+    - right. right. left. auto.
+    - right. right. right. eauto.
+  Qed.
+
+  (* the first call that does not answer, if any *)
+  Lemma first_not_ok : forall calls,
+    Forall call_consistent calls ->
+    Forall call_ok calls
+    \/ exists pre c post, calls = (pre ++ c :: post)%list /\ Forall call_ok pre /\ call_consistent c /\ ~ call_ok c.
+  Proof.
+    induction calls as [|c calls IH]; intros H.
+    - left. constructor.
+    - inversion H as [|? ? Hc Hr]; subst.
+      destruct (consistent_cases c Hc) as [Ok1|Bad].
+      + destruct (IH Hr) as [All|[pre [c' [post [E [Hp [Hcc Hn]]]]]]].
+        * left. constructor; auto.
+        * right. exists (c :: pre), c', post. subst. repeat split; auto.
+      + right. exists [], c, calls. repeat split; auto.
+        intros [cs [H1 [H2 H3]]].
+        destruct Bad as [[e [A _]]|[[A _]|[e [e' [A _]]]]]; congruence.
+  Qed.
+
+  Lemma oks_css : forall l, Forall call_ok l ->
+    exists css,
+      Forall2 (fun c cs => s_answer kind_of inv str handler c = Ok (SOk cs None) /\ cs <> []) l css
+      /\ Forall2 (fun c cs => answer kind_of inv str handler c = Ok (Tools.TOk (concat_strings cs))) l css.
+  Proof.
+    induction 1 as [|c l [cs [H1 [H2 H3]]] _ [css [A B]]].
+    - exists []. split; constructor.
+    - exists (cs :: css). split; constructor; auto.
+  Qed.
+
+  Theorem tools_node_exact_on_consistent_tools : forall calls,
+    calls <> [] ->
+    Permutation (pi_of calls) (seq 0 (List.length calls)) ->
+    Permutation (pi_of' calls) (seq 0 (List.length calls)) ->
+    Forall call_consistent calls ->
+    (forall srcs, tails_none srcs -> drained (merge_rest (sched_of srcs) srcs) = true) ->
+    tools_exact node_tn node_tns rd rd_nonempty Stream calls.
+  Proof.
+    intros calls Hne P P' Hc Hsched.
+    destruct (first_not_ok calls Hc) as [All|[pre [c [post [E [Hpre [Hcc Hn]]]]]]].
+    - destruct (oks_css calls All) as [css [A B]].
+      exact (proj1 (tools_node_stream_exact calls css Hne P P' A B Hsched)).
+    - (* some call does not answer: the two forms fail alike *)
+      unfold tools_exact.
+      assert (Hin : In c calls) by (subst; apply in_or_app; right; left; reflexivity).
+      destruct (consistent_cases c Hcc) as [Ok1|Bad]; [contradiction|].
+      (* does every call name a tool? *)
+      assert (Dec : (forall c', In c' calls -> exists r' r'', answer kind_of inv str handler c' = Ok r'
+                                                       /\ s_answer kind_of inv str handler c' = Ok r'')
+                    \/ exists c', In c' calls /\ gen_task kind_of handler c' = Err E_UNKNOWN).
+      { clear - Hc. induction calls as [|x l IH].
+        - left. intros c' [].
+        - inversion Hc as [|? ? Hx Hl]; subst.
+          destruct (gen_task kind_of handler x) as [t|e|] eqn:Eg.
+          + destruct (IH Hl) as [A|[c' [I G]]].
+            * left. intros c' [<-|I]; [|apply A; exact I].
+              unfold answer, s_answer. rewrite Eg. simpl. eauto.
+            * right. exists c'. split; [right; exact I|exact G].
+          + right. exists x. split; [left; reflexivity|].
+            destruct (gen_task_cases kind_of handler x) as [_ G]. rewrite (G e Eg) in Eg. exact Eg.
+          + destruct (gen_task_cases kind_of handler x) as [G _]. contradiction. }
+      destruct Dec as [Res|[c' [I G]]].
+      + (* every call resolves: the first failing call decides, in both forms *)
+        destruct (oks_css pre Hpre) as [css [A B]].
+        assert (Bo : Forall2 (fun c o => answer kind_of inv str handler c = Ok (Tools.TOk o)) pre (map concat_strings css)).
+        { clear - B. induction B; simpl; constructor; auto. }
+        assert (As : Forall (fun c => exists cs tl, s_answer kind_of inv str handler c = Ok (SOk cs tl)) pre).
+        { clear - A. induction A as [|x cs l css [H _] _ IH]; constructor; eauto. }
+        assert (R1 : forall c', In c' calls -> exists r', answer kind_of inv str handler c' = Ok r').
+        { intros c0 I. destruct (Res c0 I) as [r' [_ [H _]]]. eauto. }
+        assert (R2 : forall c', In c' calls -> exists r', s_answer kind_of inv str handler c' = Ok r').
+        { intros c0 I. destruct (Res c0 I) as [_ [r'' [_ H]]]. eauto. }
+        destruct Bad as [[e [Ea Es]]|[[Ea Es]|[e [e' [Ea _]]]]].
+        * pose proof (invoke_first_failure kind_of inv str handler (pi_of calls) calls pre c post _ (Tools.TErr e) P E R1 Bo Ea
+                        ltac:(intros o; discriminate)) as Hi.
+          pose proof (stream_first_failure kind_of inv str handler (pi_of' calls) calls pre c post (SErr e) P' E R2 As Es
+                        ltac:(intros cs tl; discriminate)) as Hs.
+          unfold node_tn, node_tns, tools_stream_frames. rewrite Hi, Hs. simpl. reflexivity.
+        * pose proof (invoke_first_failure kind_of inv str handler (pi_of calls) calls pre c post _ Tools.TPanic P E R1 Bo Ea
+                        ltac:(intros o; discriminate)) as Hi.
+          pose proof (stream_first_failure kind_of inv str handler (pi_of' calls) calls pre c post SPanic P' E R2 As Es
+                        ltac:(intros cs tl; discriminate)) as Hs.
+          unfold node_tn, node_tns, tools_stream_frames. rewrite Hi, Hs. destruct pre; simpl; reflexivity.
+        * destruct (R1 c Hin) as [r' Hr']. congruence.
+      + (* a call names no tool: nothing runs, both forms report it *)
+        assert (Hk : kind_of (c_name c') = None /\ handler = None).
+        { unfold gen_task in G. destruct (kind_of (c_name c')); [discriminate|].
+          destruct handler; [discriminate|]. auto. }
+        destruct Hk as [Hk Hh].
+        destruct (unknown_without_handler kind_of inv str handler (pi_of calls) calls c' I Hk Hh) as [Hi _].
+        destruct (unknown_without_handler kind_of inv str handler (pi_of' calls) calls c' I Hk Hh) as [_ [Hs _]].
+        unfold node_tn, node_tns, tools_stream_frames. rewrite Hi, Hs. simpl. reflexivity.
+  Qed.
 End Bridge.
+
+(* tools whose two forms behave alike (as functions of name and arguments): the stream has at least
+   one chunk, no error item, and concatenates to the invoked answer; or both fail with the same
+   error, or both panic, as they are called.  Then every call is consistent, whatever the kind of
+   the tool (an invokable-only tool is streamed by invoking it, a streamable-only one invoked by
+   concatenating its stream), with or without an unknown-tools handler *)
+Definition tools_alike (inv : string -> string -> tres) (str : string -> string -> sres) : Prop :=
+  forall name args,
+    match inv name args, str name args with
+    | TOk o, SOk cs None => cs <> [] /\ o = concat_strings cs
+    | TErr e, SErr e' => e = e'
+    | TPanic, SPanic => True
+    | _, _ => False
+    end.
+
+Lemma alike_calls_consistent : forall kind_of inv str handler c,
+  tools_alike inv str -> call_consistent kind_of inv str handler c.
+Proof.
+  intros kind_of inv str handler c H. unfold call_consistent, answer, s_answer, gen_task.
+  specialize (H (c_name c) (c_args c)).
+  destruct (kind_of (c_name c)) as [[| |]|]; simpl.
+  - (* invokable only: streamed by invoking *)
+    destruct (inv (c_name c) (c_args c)) as [o|e|]; simpl; auto.
+    split; [discriminate|]. simpl. symmetry. apply append_nil_r_str.
+  - (* streamable only: invoked by concatenating *)
+    destruct (inv (c_name c) (c_args c)) as [o|e|]; destruct (str (c_name c) (c_args c)) as [cs [tl|]|e'|];
+      simpl; try contradiction; auto.
+    destruct H as [Hne _]. destruct cs; [congruence|]. split; [discriminate|reflexivity].
+  - destruct (inv (c_name c) (c_args c)) as [o|e|]; destruct (str (c_name c) (c_args c)) as [cs [tl|]|e'|];
+      simpl; try contradiction; auto.
+  - destruct handler as [h|]; simpl; auto.
+    destruct (h (c_name c) (c_args c)) as [o|e|]; simpl; auto.
+    split; [discriminate|]. simpl. symmetry. apply append_nil_r_str.
+Qed.
 
 (* the canonical interleaving the correspondence check uses (tool 0's stream to its end, then
    tool 1's, ...) is complete on error-free sources *)
@@ -229,3 +387,44 @@ Lemma return_directly_by_id_wrong :
   /\ direct_answer v0_rd (v0_calls "") (v0_whole "") = Some (Some ("calc(b)", ""))
   /\ direct_answer v0_rd (v0_calls "") (v0_frames "") = Some (Some ("calc(b)", "")).
 Proof. vm_compute. repeat split; reflexivity. Qed.
+
+(* Generate = Stream for the whole agent over compose.ToolsNode with tools behaving alike *)
+Theorem generate_stream_agree_alike :
+  forall kind_of inv str handler pi_of pi_of' rd rd_nonempty modifier visible script max_steps input,
+    (forall calls, Permutation (pi_of calls) (seq 0 (List.length calls))) ->
+    (forall calls, Permutation (pi_of' calls) (seq 0 (List.length calls))) ->
+    tools_alike inv str ->
+    Forall chunking_valid script ->
+    agent_run (node_tn kind_of inv str handler pi_of) (node_tns kind_of inv str handler pi_of' seq_sched)
+              rd rd_nonempty modifier visible exact_checker Stream max_steps script input
+    = agent_run (node_tn kind_of inv str handler pi_of) (node_tns kind_of inv str handler pi_of' seq_sched)
+                rd rd_nonempty modifier visible exact_checker Generate max_steps script input.
+Proof.
+  intros kind_of inv str handler pi_of pi_of' rd rdn modifier visible script max_steps input P P' Ha Hv.
+  apply generate_stream_agree_exact_checker; auto.
+  apply Forall_forall. intros s _. destruct s as [|content calls chunks]; simpl; auto.
+  intros Hne. apply tools_node_exact_on_consistent_tools; auto.
+  - apply Forall_forall. intros c _. apply alike_calls_consistent. exact Ha.
+  - exact seq_sched_drains.
+Qed.
+
+(* ... and with the DEFAULT first-chunk checker outside the known finding F-C18 *)
+Theorem generate_stream_agree_default_alike :
+  forall kind_of inv str handler pi_of pi_of' rd rd_nonempty modifier visible script max_steps input,
+    (forall calls, Permutation (pi_of calls) (seq 0 (List.length calls))) ->
+    (forall calls, Permutation (pi_of' calls) (seq 0 (List.length calls))) ->
+    tools_alike inv str ->
+    Forall chunking_valid script ->
+    Forall tool_calls_first script ->
+    agent_run (node_tn kind_of inv str handler pi_of) (node_tns kind_of inv str handler pi_of' seq_sched)
+              rd rd_nonempty modifier visible default_checker Stream max_steps script input
+    = agent_run (node_tn kind_of inv str handler pi_of) (node_tns kind_of inv str handler pi_of' seq_sched)
+                rd rd_nonempty modifier visible default_checker Generate max_steps script input.
+Proof.
+  intros kind_of inv str handler pi_of pi_of' rd rdn modifier visible script max_steps input P P' Ha Hv Hf.
+  apply generate_stream_agree_default; auto.
+  apply Forall_forall. intros s _. destruct s as [|content calls chunks]; simpl; auto.
+  intros Hne. apply tools_node_exact_on_consistent_tools; auto.
+  - apply Forall_forall. intros c _. apply alike_calls_consistent. exact Ha.
+  - exact seq_sched_drains.
+Qed.
